@@ -26,6 +26,9 @@ func (r *InnerTokenRequest) Marshal() []byte {
 }
 
 func (r *InnerTokenRequest) Unmarshal(data []byte) bool {
+	// Drop the cached encoding: it describes the previous value of r.
+	r.raw = nil
+
 	s := cryptobyte.String(data)
 
 	if !s.ReadUint8(&r.tokenKeyId) || !s.ReadBytes(&r.blindedMsg, 256) {
